@@ -293,6 +293,8 @@ def shift_right_arithmetic(bits_to_shift, shift_amount):
     unsigned.
     """
     if isinstance(shift_amount, int):
+        if shift_amount >= len(bits_to_shift):  # only copies of the sign bit remain
+            return bits_to_shift[-1].sign_extended(len(bits_to_shift))
         return bits_to_shift[shift_amount:].sign_extended(len(bits_to_shift))
 
     bit_in = bits_to_shift[-1]  # shift in sign_bit
@@ -314,6 +316,10 @@ def shift_left_logical(bits_to_shift, shift_amount):
     `shift_amount` is treated as unsigned.
     """
     if isinstance(shift_amount, int):
+        if shift_amount == 0:
+            return bits_to_shift
+        if shift_amount >= len(bits_to_shift):  # every bit is shifted out
+            return Const(0, bitwidth=len(bits_to_shift))
         return concat(bits_to_shift[:-shift_amount], Const(0, shift_amount))
 
     bit_in = Const(0)  # shift in a 0
@@ -335,6 +341,8 @@ def shift_right_logical(bits_to_shift, shift_amount):
     the "sign bit".  Note that `shift_amount` is treated as unsigned.
     """
     if isinstance(shift_amount, int):
+        if shift_amount >= len(bits_to_shift):  # every bit is shifted out
+            return Const(0, bitwidth=len(bits_to_shift))
         return bits_to_shift[shift_amount:].zero_extended(len(bits_to_shift))
 
     bit_in = Const(0)  # shift in a 0
